@@ -242,8 +242,11 @@ def check_skeleton(m_in, m_out, io_rules=None):
 
 
 # ---------------------------------------------------------------------------
-def _interp_child(model_bytes, inputs, conn):
+def _interp_child(model_bytes, inputs, conn, errpath=None):
   try:
+    if errpath:
+      fd = os.open(errpath, os.O_WRONLY | os.O_CREAT | os.O_TRUNC)
+      os.dup2(fd, 2)
     from ai_edge_litert import interpreter as tfl
     it = tfl.Interpreter(
         model_content=bytes(model_bytes),
@@ -292,7 +295,10 @@ def run_interpreter(model_bytes, inputs=None, timeout=120):
   Returns ('ok', outs) | ('error', msg) | ('abort', signal/exit)."""
   ctx = mp.get_context('fork')
   parent, child = ctx.Pipe(duplex=False)
-  p = ctx.Process(target=_interp_child, args=(model_bytes, inputs, child))
+  import tempfile
+  errf = tempfile.NamedTemporaryFile(prefix='vf_interp_', suffix='.err', delete=False)
+  errf.close()
+  p = ctx.Process(target=_interp_child, args=(model_bytes, inputs, child, errf.name))
   p.start()
   child.close()
   res = None
@@ -302,10 +308,19 @@ def run_interpreter(model_bytes, inputs=None, timeout=120):
     except EOFError:
       res = None
   p.join(5)
+  try:
+    with open(errf.name, errors='replace') as fh:
+      errtail = ' | '.join(l.strip() for l in fh.read().splitlines()[-3:])
+  except OSError:
+    errtail = ''
+  try:
+    os.remove(errf.name)
+  except OSError:
+    pass
   if p.is_alive():
     p.kill()
     p.join()
     return ('abort', 'timeout')
   if res is None:
-    return ('abort', f'exit code {p.exitcode}')
+    return ('abort', f'exit code {p.exitcode}: {errtail}')
   return res
